@@ -81,7 +81,8 @@ def main():
     stats = {}
     disagreements = []
     oracle_fail = []
-    builds = mod.builds(tier) if hasattr(mod, "builds") else ["dev"]
+    # debug and release profiles by default: debug_assert!, overflow checks and cfg(debug_assertions) make the profile part of the input space
+    builds = mod.builds(tier) if hasattr(mod, "builds") else ["dev", "release"]
     if a.replay:
         rp = json.load(open(a.replay))
         fixed_requests = rp.get("requests") or [rp["request"]]
